@@ -87,6 +87,25 @@ def pair_strings(case: dict) -> list:
     return out
 
 
+RUN_CPS = [0xE9, 0x3B1, 0x20AC, 0x8000, 0xFFFD, 0x1F600]
+RUN_FOLLOW = [" ", "a", "1", "-", "?", "*", ";", " z", "'", "Z9"]
+
+
+def run_strings(case: dict) -> list:
+    """form 'runs': a run of two (and three) adjacent non-ASCII characters FOLLOWED by ASCII text - the delimiter after the last
+    escape of a run is where a run-wise escaper differs from a per-character one (the space after the run is data, not a
+    delimiter); prefix '' or 'x'."""
+    out = []
+    for x in RUN_CPS:
+        for y in RUN_CPS:
+            for f in RUN_FOLLOW:
+                out.append((x, chr(x) + chr(y) + f))
+                out.append((x, "x" + chr(x) + chr(y) + f))
+        for f in RUN_FOLLOW[:4]:
+            out.append((x, chr(x) + chr(0x394) + chr(x) + f + chr(x) + chr(x) + f))
+    return out[case["lo"]:case["hi"]]
+
+
 # Text that is escape syntax of some *other* layer (XML/HTML character references, percent-encoding, quoted-printable,
 # U+ notation, printf/format directives, shell/SQL quoting, RTF words without their backslash).  For rtflite it is
 # ordinary text and must be read back unchanged.  Backslash / brace spellings (\\u0041, \\x41, {\\b x}, \\'e9) are not
@@ -538,6 +557,9 @@ def eval_case(case: dict) -> dict:
     if form == "pairs":
         ps = pair_strings(case)
         cps, strings = [p[0] for p in ps], [p[1] for p in ps]
+    elif form == "runs":
+        ps = run_strings(case)
+        cps, strings = [p[0] for p in ps], [p[1] for p in ps]
     elif form == "foreign":
         ps = foreign_strings(conv, case.get("more", False))[case["lo"]:case["hi"]]
         cps, strings = [p[0] for p in ps], [p[1] for p in ps]
@@ -708,6 +730,11 @@ def plan(run):
               for pos in (("body", "title") if quick else ("body", "colheader", "title", "footnote_table", "source_para", "page_header"))
               for conv in (True, False) for lo in range(0, len(BOUNDARY), 14)]
     run.layer("boundary-pairs", fn, pcases, chunk=2, total=len(pcases))
+    nruns = len(run_strings({"lo": 0, "hi": None}))
+    rcases = [{"pos": pos, "conv": conv, "form": "runs", "lo": lo, "hi": lo + 38}
+              for pos in (("body", "title", "footnote_table") if quick else ("body", "colheader", "title", "subline", "footnote_table", "footnote_para", "source_para", "page_header"))
+              for conv in (True, False) for lo in range(0, nruns, 38)]
+    run.layer("non-ascii-runs-followed-by-ascii", fn, rcases, chunk=2, total=len(rcases))
 
     # text that is escape syntax of another layer, in every position and in the non-String columns
     fcases = []
@@ -766,7 +793,7 @@ def plan(run):
     nbody = sum(len(case_cps(c)) for c in body)
     if not quick and nbody != space_size(True) + space_size(False):
         run.harness_errors.append({"layer": "accounting", "case": None, "error": f"body layer enumerates {nbody} slots, space has {space_size(True) + space_size(False)}"})
-    exp_body = nbody * (1 if quick else 2) + nb * (1 + len(fills)) + npairs + nforeign[True] + nforeign[False]
+    exp_body = nbody * (1 if quick else 2) + nb * (1 + len(fills)) + npairs + nforeign[True] + nforeign[False] + 2 * nruns
     if all(l["completed"] for l in run.layers) and got != exp_body and not run.viol:
         run.harness_errors.append({"layer": "accounting", "case": None,
                                    "error": f"body slots checked {got}, expected {exp_body}"})
